@@ -417,6 +417,13 @@ func loadKnown() {
 	})
 }
 
+var prefixProbes = map[string]func(sig string) (bool, string){}
+
+// RegisterProbePrefix registers a generic probe for every known finding whose signature starts with prefix.
+func RegisterProbePrefix(prefix string, probe func(sig string) (fails bool, detail string)) {
+	prefixProbes[prefix] = probe
+}
+
 // RegisterProbe registers the deterministic regression probe of a known finding: it
 // returns true while the finding still reproduces on the tree under test.
 func RegisterProbe(sig string, probe func() (fails bool, detail string)) { probes[sig] = probe }
@@ -435,6 +442,14 @@ func Main(m *testing.M, cleanup ...func()) {
 		sort.Slice(knownList, func(i, j int) bool { return knownList[i].Sig < knownList[j].Sig })
 		for _, k := range knownList {
 			probe := probes[k.Sig]
+			if probe == nil {
+				for prefix, pp := range prefixProbes {
+					if strings.HasPrefix(k.Sig, prefix) {
+						pp, sig := pp, k.Sig
+						probe = func() (bool, string) { return pp(sig) }
+					}
+				}
+			}
 			if probe == nil {
 				fmt.Printf("KNOWN-UNPROBED property=%s sig=%s (no probe registered; not excluded)\n", Prop(), k.Sig)
 				continue
